@@ -40,9 +40,17 @@ var (
 	Coder = coder.NewNormalCoder()
 )
 
+// MetricsWrap, when set before the first call of Metrics, wraps the real Prometheus client.
+var MetricsWrap func(metrics.Metrics) metrics.Metrics
+
 // Metrics returns the single real Prometheus metrics client of this process.
 func Metrics() metrics.Metrics {
-	metricsOnce.Do(func() { metricsCli = prometheus.NewMetrics() })
+	metricsOnce.Do(func() {
+		metricsCli = prometheus.NewMetrics()
+		if MetricsWrap != nil {
+			metricsCli = MetricsWrap(metricsCli)
+		}
+	})
 	return metricsCli
 }
 
@@ -167,15 +175,15 @@ func init() {
 type Env struct {
 	fmu     sync.Mutex
 	fillers map[string]int // filler (empty) batches consumed, per forwarding-loop process
-	Eng    *Engine
-	Store  *gate.Store
-	Sched  *gate.Sched
-	Rec    *gate.Recorder
-	Keys   *gate.KeyMap
-	Prefix string
-	B      backend.Backend
-	Base   uint64
-	Cfg    backend.Config
+	Eng     *Engine
+	Store   *gate.Store
+	Sched   *gate.Sched
+	Rec     *gate.Recorder
+	Keys    *gate.KeyMap
+	Prefix  string
+	B       backend.Backend
+	Base    uint64
+	Cfg     backend.Config
 }
 
 var envSeq int64
